@@ -394,6 +394,37 @@ def run_shard(spec, R):
         R.sig(["series", dim, payload, time_kind, how, count], True, cls=f"assembly/{how}/{time_kind}")
         if n < 1:
             R.sample(case)
+        # ---- second generation: slices of the assembled series (from index k0 >= 1 on) are stacked again and
+        # re-sliced; they must come back with the data, dates and relative times they had as slices
+        if ok and count >= 3:
+            k0 = int(rng.integers(1, count - 1))
+            gen = []
+            okg = True
+            for k in range(k0, count):
+                okk, slk = R.guarded("time_slice_of_stack", lambda: ser.time_slice(k))
+                okg &= okk
+                gen.append(slk)
+            if okg:
+                snap2 = [(g.img.copy(), g.date, g.time) for g in gen]
+                how2 = ["stack", "append"][n % 2]
+
+                def rebuild():
+                    cp = [g.copy() for g in gen]
+                    if how2 == "stack":
+                        return darsia.stack(cp)
+                    s2 = cp[0]
+                    for g in cp[1:]:
+                        s2.append(g, offset=0.0) if time_kind == "time" else s2.append(g)
+                    return s2
+
+                ok2, ser2 = R.guarded("assemble_series", rebuild)
+                if ok2:
+                    for j in range(len(gen)):
+                        okj, slj = R.guarded("time_slice_of_stack", lambda: ser2.time_slice(j))
+                        if okj:
+                            R.check(np.array_equal(slj.img, snap2[j][0]) and slj.date == snap2[j][1], "stack_roundtrip", {**case, "generation": 2, "k0": k0, "j": j, "what": "data/date"})
+                            R.check(slj.time == snap2[j][2], "stack_roundtrip_time", {**case, "generation": 2, "how2": how2, "k0": k0, "j": j, "got": slj.time, "expected": snap2[j][2]})
+                    R.sig(["series-gen2", dim, payload, time_kind, how2, count, k0], True, cls=f"assembly2/{how2}/{time_kind}")
 
 
 MANIFEST = {
